@@ -290,8 +290,13 @@ pub fn reasm_run(run: u64, rng: &mut SmallRng, out: &mut NdJson, dups: bool, dis
             // (every arrival schedules exactly one callback: a token fires at most once)
             let t = if rng.gen() { tokens.len() - 1 } else { rng.gen_range(0..tokens.len()) };
             let (k2, b, e, tok) = tokens.remove(t);
+            // whether the callback freed a buffer is observed (the number of buffers in the Debug rendering),
+            // not predicted from the epochs
+            let nbuf = |r: &Reassembly| format!("{:?}", r).matches("Segment {").count();
+            let before = nbuf(&r);
             r.maybe_cull_segment(b, e);
-            out.put(&json!({"ev":"expire","run":run,"i":i,"k":k2,"tok":tok,"epoch":e}));
+            let culled = nbuf(&r) < before;
+            out.put(&json!({"ev":"expire","run":run,"i":i,"k":k2,"tok":tok,"epoch":e,"culled":culled}));
             i += 1;
         }
         let _ = n;
